@@ -63,10 +63,14 @@ def render_commented(doc, rng, newline="\n"):
                     out.append(ind + '    "%s" "%s"' % (a.text, v.text))
                 out.append(ind + "  END")
                 continue
-            if it.repeated and len(it.tokens) > 2:
+            if it.repeated:
                 for a, v in zip(it.tokens[0::2], it.tokens[1::2]):
                     w2 = docs.Writer(docs.Layout()); w2.token(a); w2.emit(" "); w2.token(v)
-                    out.append(ind + "  " + "".join(w2.out))
+                    line = ind + "  " + "".join(w2.out)
+                    if rng.random() < 0.5:
+                        # comments on repeated keywords may migrate or vanish, but must never be duplicated or altered
+                        line += " " + new_comment("rep")
+                    out.append(line)
                 continue
             for i, t in enumerate(it.tokens):
                 w.token(t)
